@@ -448,3 +448,67 @@ impl<I: Iterator> Iterator for NoHint<I> {
         (0, None)
     }
 }
+
+// ---------------------------------------------------------------------------------------------
+// allocation-failure injection (C17: try_reserve must fail cleanly, whichever allocation fails)
+
+pub struct FaultAlloc;
+
+thread_local! {
+    /// -1 = disarmed; k >= 0: the k-th allocation (alloc / alloc_zeroed / growing realloc) from now on
+    /// on this thread returns null, once
+    static ALLOC_FAIL_IN: Cell<i64> = const { Cell::new(-1) };
+    static ALLOC_FIRED: Cell<bool> = const { Cell::new(false) };
+}
+
+#[inline]
+fn alloc_should_fail() -> bool {
+    ALLOC_FAIL_IN.with(|c| {
+        let v = c.get();
+        if v < 0 {
+            false
+        } else if v == 0 {
+            c.set(-1);
+            ALLOC_FIRED.with(|f| f.set(true));
+            true
+        } else {
+            c.set(v - 1);
+            false
+        }
+    })
+}
+
+unsafe impl std::alloc::GlobalAlloc for FaultAlloc {
+    unsafe fn alloc(&self, l: std::alloc::Layout) -> *mut u8 {
+        if alloc_should_fail() {
+            return std::ptr::null_mut();
+        }
+        unsafe { std::alloc::System.alloc(l) }
+    }
+    unsafe fn alloc_zeroed(&self, l: std::alloc::Layout) -> *mut u8 {
+        if alloc_should_fail() {
+            return std::ptr::null_mut();
+        }
+        unsafe { std::alloc::System.alloc_zeroed(l) }
+    }
+    unsafe fn dealloc(&self, p: *mut u8, l: std::alloc::Layout) {
+        unsafe { std::alloc::System.dealloc(p, l) }
+    }
+    unsafe fn realloc(&self, p: *mut u8, l: std::alloc::Layout, new: usize) -> *mut u8 {
+        if new > l.size() && alloc_should_fail() {
+            return std::ptr::null_mut();
+        }
+        unsafe { std::alloc::System.realloc(p, l, new) }
+    }
+}
+
+/// The k-th allocation of this thread from now on fails (once).
+pub fn arm_alloc_failure(k: i64) {
+    ALLOC_FIRED.with(|f| f.set(false));
+    ALLOC_FAIL_IN.with(|c| c.set(k));
+}
+/// Disarm; returns whether an allocation was made to fail.
+pub fn disarm_alloc_failure() -> bool {
+    ALLOC_FAIL_IN.with(|c| c.set(-1));
+    ALLOC_FIRED.with(|f| f.replace(false))
+}
